@@ -280,7 +280,10 @@ func C16(tier Tier) int {
 		// and are activated afterwards - the prices in force must be the same
 		// variant 2: the factory receives every change before it creates the function container;
 		// variant 3: it receives the first change before and the others after
-		for variant := 0; variant < 4; variant++ {
+		// variant 4: after the changes, instances built by another factory (constructor prices) are
+		// put into the container with Replace and the schedule in force is delivered once more -
+		// every registered function, replaced ones included, is priced by it
+		for variant := 0; variant < 5; variant++ {
 			cfg := ledgerEnv(2)
 			cfg.Schedule = world.PrimeSchedule(0) // construction schedule S1
 			if variant >= 1 && len(seq) == 0 {
@@ -332,8 +335,31 @@ func C16(tier Tier) int {
 			if variant == 1 {
 				env.ConfirmEpoch(1)
 			}
+			if variant == 4 {
+				if inForceName == "S1(construction)" {
+					continue
+				}
+				donorCfg := ledgerEnv(2)
+				donorCfg.Schedule = world.PrimeSchedule(0)
+				donor, derr := world.NewEnv(donorCfg)
+				if derr != nil {
+					panic(derr)
+				}
+				for si, se := range env.Shards {
+					for _, name := range []string{vmcommon.BuiltInFunctionChangeOwnerAddress, vmcommon.BuiltInFunctionClaimDeveloperRewards} {
+						if f, gerr := donor.Shards[si].Container.Get(name); gerr == nil {
+							_ = se.Container.Replace(name, f)
+						}
+					}
+				}
+				env.ChangeSchedule(inForce)
+				label = "(two functions replaced by fresh instances, then the schedule in force delivered again) " + label
+			}
 			perWorker[wk][inForceName] = true
 			for _, pc := range classes {
+				if variant == 4 && pc.field != "ChangeOwnerAddress" && pc.field != "ClaimDeveloperRewards" {
+					continue
+				}
 				act := pc.act
 				act.Gas = gas
 				_, legs := env.Step(baseWorld, act)
